@@ -169,8 +169,14 @@ class Proxy(object):
         else:
           self.c.executescript(sql)
           result = None
+      except MemoryError:
+        st.error = 'TooExpensive'
+        raise TooExpensive('statement %d exhausted the memory limit' % k)
       except sqlite3.Error as e:
         st.error = '%s: %s' % (type(e).__name__, e)
+        if 'out of memory' in str(e):
+          st.error = 'TooExpensive'
+          raise TooExpensive('statement %d exhausted the memory limit' % k)
         msg = str(e)
         if 'interrupted' in msg and not f2:
           st.error = 'TooExpensive'
